@@ -612,7 +612,21 @@ func (e *Engine) replayOblig(u *Unit, ob *Oblig) ReplayOutcome {
 	}
 	// the replay file: contract functions with the executable prelude
 	gen := e.genSrc[ct.Dir]
-	gen = strings.Replace(gen, specPrelude, replayPrelude, 1)
+	prel := replayPrelude
+	if ct.Pkg != "s2" {
+		// the CellID quantifier cases exist only in package s2: drop each "case CellID:" line and the line after it
+		lines := strings.Split(prel, "\n")
+		var kept []string
+		for k := 0; k < len(lines); k++ {
+			if strings.TrimSpace(lines[k]) == "case CellID:" {
+				k++
+				continue
+			}
+			kept = append(kept, lines[k])
+		}
+		prel = strings.Join(kept, "\n")
+	}
+	gen = strings.Replace(gen, specPrelude, prel, 1)
 	// imports for the prelude
 	pkgLine := "package " + ct.Pkg + "\n"
 	imports := "import (\n\tvcBytes \"bytes\"\n\tvcFmt \"fmt\"\n\tvcMath \"math\"\n\tvcUnsafe \"unsafe\"\n)\nvar _ = vcMath.Pi\nvar _ vcUnsafe.Pointer\n"
